@@ -149,12 +149,16 @@ Section Docs.
     let a := spec_run (dm_spec c) [] cs in
     exists l, length l = dm_count s /\ NoDup (map fst l)
       /\ (forall i, dm_by_index c s i = of_option (nth_error l (N.to_nat i)))
-      /\ (forall nm d, In (nm, d) l <-> aget N.eqb nm a = Some d).
+      /\ (forall nm d, In (nm, d) l <-> aget N.eqb nm a = Some d)
+      (* paging through get_documents(0), get_documents(1), ... yields the same enumeration *)
+      /\ (forall m, dm_count s <= m * dm_bs c -> flat_map (fun k => dm_bucket s (N.of_nat k)) (seq 0 m) = l).
   Proof.
     cbn zeta. destruct (dm_reach cs) as [l [Hi [Hna Hlk]]]. exists l.
-    pose proof Hi as (Hc & Hn & _). split; auto. split; auto. split.
+    pose proof Hi as (Hc & Hn & Hk & _). split; auto. split; auto. split; [|split].
     - intros i. apply dm_by_index_inv; auto.
     - intros nm d. rewrite Hlk. symmetry. apply (aget_In N.eqb N.eqb_eq). auto.
+    - intros m Hm. rewrite Hc in Hm. rewrite <- (chunk_inv_concat bs_pos m Hk Hm).
+      apply flat_map_ext. intros k. unfold dm_bucket. rewrite Nat2N.id. reflexivity.
   Qed.
 End Docs.
 
@@ -200,11 +204,17 @@ Section CTI.
     let a := spec_run (cti_spec c) cti_ref0 cs in
     cti_topics s = rT a /\ cti_issuers s = rI a /\ NoDup (rT a) /\ NoDup (rI a)
     /\ (forall i, cti_get_issuer_topics s i = if memb N.eqb i (rI a) then Ok (rtopics a i) else Fail)
+    /\ (forall i, In i (rI a) -> NoDup (rtopics a i) /\ (forall t, In t (rtopics a i) -> In t (rT a)))
+    /\ (forall t, match cti_get_topic_issuers s t with
+                  | Ok l => In t (rT a) /\ NoDup l /\ (forall i, In i l <-> (In i (rI a) /\ In t (rtopics a i)))
+                  | Fail => ~ In t (rT a)
+                  end)
     /\ (forall k, is_ok (cti_step c s k) = is_ok (cti_spec c a k)).
   Proof.
-    cbn zeta. pose proof (cti_reach cs) as HR. pose proof HR as (ET & EI & NT & NI & HB & _).
-    repeat split; auto.
+    cbn zeta. pose proof (cti_reach cs) as HR. pose proof HR as (ET & EI & NT & NI & HB & HC & HD).
+    split; [auto|]. split; [auto|]. split; [auto|]. split; [auto|]. split; [|split; [exact HC|split]].
     - intros i. unfold cti_get_issuer_topics. rewrite HB. destruct (memb N.eqb i (rI _)); reflexivity.
+    - intros t. unfold cti_get_topic_issuers. specialize (HD t). destruct (ti_get _ t); cbn [of_option]; auto.
     - intros k. apply (@sim_is_ok _ _ _ (cti_step c) (cti_spec c) cti_rel); auto. intros. apply cti_spec_sim; auto.
   Qed.
 
@@ -231,7 +241,7 @@ Section CTI.
        (~ In t (cti_topics s) /\ length (cti_topics s) < cti_max_topics c))
     /\ (is_ok (cti_step c s (CtRemoveTopic t)) = true <-> In t (cti_topics s)).
   Proof.
-    cbn zeta. destruct (cti_refines cs) as (ET & EI & NT & NI & _ & Hs). cbn zeta in *.
+    cbn zeta. destruct (cti_refines cs) as (ET & EI & NT & NI & _ & _ & _ & Hs). cbn zeta in *.
     rewrite !Hs, ET. cbn [cti_spec]. split.
     - destruct (cti_max_topics c <=? length (rT _)) eqn:E1; cbn [orb is_ok].
       + apply Nat.leb_le in E1. split; [discriminate|]. intros [_ H]. lia.
@@ -249,7 +259,7 @@ Section CTI.
     (is_ok (cti_step c s (CtAddIssuer i ts)) = true <->
        (~ In i (cti_issuers s) /\ length (cti_issuers s) < cti_max_issuers c)).
   Proof.
-    cbn zeta. destruct (cti_refines cs) as (ET & EI & NT & NI & _ & Hs). cbn zeta in *.
+    cbn zeta. destruct (cti_refines cs) as (ET & EI & NT & NI & _ & _ & _ & Hs). cbn zeta in *.
     intros Hv. rewrite Hs, EI. cbn [cti_spec]. rewrite Hv. cbn [andb].
     destruct (cti_max_issuers c <=? length (rI _)) eqn:E1; cbn [negb andb is_ok].
     - apply Nat.leb_le in E1. split; [discriminate|]. intros [_ H]. lia.
@@ -266,6 +276,42 @@ Section Keys.
   Variable c : ck_cfg.
   Lemma ck_reach cs : ck_rel (run (ck_step c) ck_init cs) (spec_run (ck_spec c) [] cs).
   Proof. apply (@run_sim _ _ _ (ck_step c) (ck_spec c) ck_rel); [intros; apply ck_spec_sim; auto|apply ck_rel_init]. Qed.
+
+  (* the two storage directions are views of ONE set of (key, topic, registry) triples [a]:
+     the keys of a topic, the registries of a key (one entry per pair, in insertion order), the
+     two membership tests, and the accept / refuse decision of every call *)
+  Theorem keys_refines cs :
+    let s := run (ck_step c) ck_init cs in
+    let a := spec_run (ck_spec c) [] cs in
+    NoDup a
+    /\ (forall t, match ck_keys_for_topic s t with
+                  | Ok ks => NoDup ks /\ ks <> [] /\ (forall k, In k ks <-> exists r, In (k, t, r) a)
+                  | Fail => forall k r, ~ In (k, t, r) a
+                  end)
+    /\ (forall k, ck_registries s k = match pairs_of a k with [] => Fail | ps => Ok (map kt_reg ps) end)
+    /\ (forall k t, ck_allowed_for_topic s k t = true <-> exists r, In (k, t, r) a)
+    /\ (forall k r, ck_allowed_for_registry s k r = true <-> exists t, In (k, t, r) a)
+    /\ (forall q, is_ok (ck_step c s q) = is_ok (ck_spec c a q)).
+  Proof.
+    cbn zeta. pose proof (ck_reach cs) as HR. pose proof HR as (Hn & HP & HT).
+    split; auto. split; [|split; [|split; [|split]]].
+    - intros t. unfold ck_keys_for_topic. specialize (HT t). destruct (kt_get _ t) as [ks|]; cbn [of_option].
+      + destruct HT as (H1 & H2 & H3). split; auto. split; auto. intros k. rewrite H3. apply In_keys_of.
+      + intros k r Hin. assert (Hk : In k (keys_of (spec_run (ck_spec c) [] cs) t)) by (apply In_keys_of; eauto).
+        rewrite HT in Hk. destruct Hk.
+    - intros k. unfold ck_registries. rewrite HP. unfold proj_k.
+      destruct (pairs_of _ k) as [|x0 r0]; [reflexivity|].
+      change (opt_list (map kproj (x0 :: r0))) with (Some (map kproj (x0 :: r0))). cbn [of_option bind].
+      rewrite map_map. reflexivity.
+    - intros k t. rewrite (allowed_topic_rel k t HR). rewrite (memb_In skey_eqb skey_eqb_spec). apply In_keys_of.
+    - intros k r. unfold ck_allowed_for_registry. rewrite HP. split.
+      + destruct (proj_k _ k) as [|p0 ps0] eqn:Ep; [discriminate|]. cbn [opt_list]. intros H.
+        apply existsb_exists in H. destruct H as [[t r'] [Hin E]]. cbn in E. apply N.eqb_eq in E. subst r'.
+        rewrite <- Ep in Hin. apply In_proj_k in Hin. eauto.
+      + intros [t Hin]. apply In_proj_k in Hin. destruct (proj_k _ k) as [|p0 ps0] eqn:Ep; [destruct Hin|].
+        cbn [opt_list]. apply existsb_exists. exists (t, r). split; auto. cbn. apply N.eqb_refl.
+    - intros q. apply (@sim_is_ok _ _ _ (ck_step c) (ck_spec c) ck_rel (fun s a k H => @ck_spec_sim c s a k H) _ _ _ HR).
+  Qed.
 
   (* both directions of the key / topic relation agree: the key is listed for the topic iff
      one of its (topic, registry) pairs has that topic *)
@@ -590,6 +636,29 @@ Section SAProps.
     - intros r1 r2 H1 H2 Ec Es Ep. apply HD; auto. unfold fp_same, fp_of. cbn [fst snd].
       rewrite (proj2 (ctxt_eqb_spec _ _) Ec), (proj2 (seteqb_spec signer_eqb signer_eqb_spec _ _) Es),
         (proj2 (seteqb_spec N.eqb N.eqb_eq _ _) Ep). reflexivity.
+  Qed.
+
+  (* a rule with the fingerprint of a live rule (same context type, same signer SET, same policy
+     SET, in any order) is refused *)
+  Theorem sa_duplicate_fingerprint_refused cs id r cx name until sg po :
+    let s := run (sa_step c) sa_init cs in
+    sa_get_rule s id = Ok r -> r_ctx r = cx ->
+    (forall x, In x sg <-> In x (r_signers r)) -> (forall p, In p (map fst po) <-> In p (r_policies r)) ->
+    sa_step c s (SaAddRule cx name until sg po) = Fail.
+  Proof.
+    cbn zeta. intros Hg Hc Hs Hp. destruct (sa_reach cs) as [a HR].
+    rewrite (sa_get_rule_rel id HR) in Hg. destruct (find_rule id (rRules a)) as [r'|] eqn:Ef; [|discriminate].
+    inversion Hg. subst r'. destruct (find_rule_id _ _ Ef) as [_ Hin].
+    cbn [sa_step]. unfold sa_add_rule.
+    destruct (sa_max_rules c <=? _); [reflexivity|]. destruct (negb (nodupb signer_eqb sg)); [reflexivity|].
+    destruct (negb (until_ok c until)); [reflexivity|]. destruct (negb (sa_validate c sg (map fst po))); [reflexivity|].
+    unfold sa_set_fp, sa_fp. destruct (negb (nodupb signer_eqb sg)); [reflexivity|].
+    destruct (negb (nodupb N.eqb (map fst po))); [reflexivity|]. cbn [bind].
+    rewrite (existsb_fps (cx, sg, map fst po) HR).
+    replace (existsb (fun r0 => fp_same (cx, sg, map fst po) (fp_of r0)) (rRules a)) with true; [reflexivity|].
+    symmetry. apply existsb_exists. exists r. split; auto. unfold fp_same, fp_of. cbn [fst snd].
+    rewrite (proj2 (ctxt_eqb_spec _ _) (eq_sym Hc)), (proj2 (seteqb_spec signer_eqb signer_eqb_spec _ _) Hs),
+      (proj2 (seteqb_spec N.eqb N.eqb_eq _ _) Hp). reflexivity.
   Qed.
 
   (* documented limits: never more than MAX_CONTEXT_RULES rules; a successful add needs room *)
